@@ -44,9 +44,11 @@ func GetNodePreferableGpuForSharing(fittingGPUsOnNode []string, node *node_info.
 	}
 
 	deviceCounts := pod.ResReq.GetNumOfGpuDevices()
+	newGroups := 0
 	for _, gpuIdx := range fittingGPUsOnNode {
 		if gpuIdx == pod_info.WholeGpuIndicator {
-			if wholeGpuForSharing := findGpuForSharingOnNode(pod, node, isPipelineOnly); wholeGpuForSharing != nil {
+			if wholeGpuForSharing := findGpuForSharingOnNode(pod, node, isPipelineOnly, newGroups); wholeGpuForSharing != nil {
+				newGroups++
 				nodeGpusSharing.IsReleasing =
 					nodeGpusSharing.IsReleasing || wholeGpuForSharing.IsReleasing
 				nodeGpusSharing.Groups = append(nodeGpusSharing.Groups, wholeGpuForSharing.Groups...)
@@ -67,10 +69,15 @@ func GetNodePreferableGpuForSharing(fittingGPUsOnNode []string, node *node_info.
 	return nil
 }
 
-func findGpuForSharingOnNode(task *pod_info.PodInfo, node *node_info.NodeInfo, isPipelineOnly bool) *nodeGpuForSharing {
+func findGpuForSharingOnNode(task *pod_info.PodInfo, node *node_info.NodeInfo, isPipelineOnly bool,
+	newGroupsAlreadyChosen int) *nodeGpuForSharing {
 	isReleasing := true
 	if !isPipelineOnly {
-		if taskAllocatable := node.IsTaskAllocatable(task); taskAllocatable {
+		// A new GPU group takes a whole device: it can only be allocated now if a whole GPU is really
+		// idle. IsTaskAllocatable alone is not enough, it also counts room on existing shared GPUs
+		// (including groups that only hold pipelined pods).
+		hasIdleWholeGpu := int(node.Idle.GPUs()) >= newGroupsAlreadyChosen+1
+		if taskAllocatable := node.IsTaskAllocatable(task); taskAllocatable && hasIdleWholeGpu {
 			isReleasing = false
 		}
 	}
